@@ -56,6 +56,22 @@ THEOREMS = [
         "aphWeight_eq_one_sub_abs_error", "wrapYaw_dom", "preFix_not_minimal", "preFix_not_sign_invariant",
         "analyzerYawError_eq_headingError", "analyzerYawError_range", "analyzerYawError_abs_eq_d", "analyzerYawError_antisymm",
         "wrapYaw_roundtrip", "analyzerYawError_frame_invariant", "saturating_not_minimal",
+        # quaternion level (audit C09-1): the sign clause, for every arctan2 and every quaternion; F3 / C09_G refuted
+        "heading_of_neg", "yawDir_of_rotMat", "yawDir_same_rotation", "yawVia_sign_invariant", "aphWeightQ_sign_invariant",
+        "headingErrorQ_sign_invariant", "analyzerYawErrorQ_sign_invariant", "aphWeightQMap_sign_invariant", "aphWeightQ_eq_tau",
+        "yawDir_pureYaw", "yawDir_compose", "dirDiff_frame_invariant", "dirDiff_sign_invariant", "dirDiff_swap",
+        "cosDiff_characterisation", "radiansDir_eq_yawDir_iff", "radiansDir_not_sign_invariant", "radiansDir_loses_yaw_sign",
+        "radiansVia_not_sign_invariant",
+        # from the ONE bridge hypothesis YawBridge (angle <-> direction)
+        "aphWeightQ_eq_dir", "aphWeightQ_eq_one_iff_dir", "aphWeightQ_eq_zero_iff_dir", "aphWeightQ_le_iff_dir",
+        "aphWeightQMap_frame_invariant", "headingErrorQ_abs_dir", "headingErrorQ_pos_iff_dir", "headingErrorQ_neg_iff_dir",
+        "headingErrorQ_determined", "headingErrorQ_frame_invariant", "yawBridge_axes",
+        # closed yaw domain [-pi, pi] (audit C09-2), clamp inactive (C09-3), no ground truth (C09-4)
+        "aphWeight_eq_closed", "aphWeight_clamp_inactive", "aphWeight_eq_one_iff_closed", "aphWeight_eq_zero_iff_closed",
+        "headingError_range_closed", "headingError_abs_eq_d_closed", "analyzerYawError_closed", "frame_invariant_closed",
+        "no_ground_truth",
+        # the bridge over the reals (Mathlib: Complex.arg, arccos, sin): every field of YawBridge is a theorem there
+        "real_yaw_recovered", "real_yawDir", "real_dist_fields", "real_sin_sign", "tau_model_congruences",
     ]
 ]
 TRUSTED = [
@@ -208,6 +224,15 @@ def run_impl(case):
             res["derived"] = dr
         except Exception as e:  # noqa
             res["derived"] = [{"exc": type(e).__name__}]
+        # quaternion level (Lean `yawDir`, `radiansDir`): the components the objects were built from, exactly, and what
+        # pyquaternion reads out of q and of −q (fresh Quaternion objects: yaw_pitch_roll normalises in place)
+        qd = []
+        for q in (qe, qg):
+            comps = [float(x) for x in q.q]
+            qp, qn = I.Quaternion(comps), I.Quaternion([-x for x in comps])
+            qd.append({"q": [core.q(x) for x in comps], "yaw": float(qp.yaw_pitch_roll[0]), "yawn": float(qn.yaw_pitch_roll[0]),
+                       "rad": float(qp.radians), "radn": float(qn.radians)})
+        res["qd"] = qd
         return res
     except Exception as e:  # noqa
         return {"err": type(e).__name__, "msg": str(e)[:200]}
@@ -439,7 +464,10 @@ def model_requests(case, out):
         ps = _an_pairs(case)
         return [{"op": "analyzer", "t0": case["t0"] if case["frame"] == "map" else "0",
                  "te": [core.q(te) for _n, te, _tg in ps], "tg": [core.q(tg) for _n, _te, tg in ps]}]
-    return [{"op": "pair", "te": case["te"], "tg": case.get("tg"), "t0": case.get("t0", "0")}]
+    reqs = [{"op": "pair", "te": case["te"], "tg": case.get("tg"), "t0": case.get("t0", "0")}]
+    if isinstance(out, dict) and out.get("qd"):
+        reqs.append({"op": "yawdir", "q": [c for d in out["qd"] for c in d["q"]]})
+    return reqs
 
 
 def _tol(case):
@@ -478,6 +506,37 @@ def compare(case, out, resps):
         if "tp" in r:
             if len(r["tp"]) != 1 or not abs(r["tp"][0] - mw) <= tol:
                 return f"rendering {[f, a, b, s]}: Ap.tp_list {r['tp']} != [model weight {mw!r}]"
+    if out.get("qd") and len(resps) > 1 and resps[1] is not None:
+        msg = _compare_quat_level(case, out["qd"], resps[1].get("dirs", []))
+        if msg:
+            return msg
+    return None
+
+
+def _ang_close(a, b, tol):
+    d = abs(a - b) % (2 * PI)
+    return min(d, 2 * PI - d) <= tol
+
+
+def _compare_quat_level(case, qd, dirs):
+    """Lean `yawDir q` = the two arguments of arctan2 in `Quaternion.yaw_pitch_roll[0]`, equal for q and −q
+    (`PEval.C09.heading_of_neg`); the yaw pyquaternion reports for q and for −q is atan2 of that pair.  For pure-yaw
+    quaternions also the model of the defective variant: `radiansDir` is (cos, sin) of `Quaternion.radians`."""
+    if len(dirs) != len(qd):
+        return f"quaternion level: {len(dirs)} model rows for {len(qd)} quaternions"
+    for d, m in zip(qd, dirs):
+        c, s_, cn, sn = (float(core.unq(m[k])) for k in ("c", "s", "cn", "sn"))
+        if (m["c"], m["s"]) != (m["cn"], m["sn"]):
+            return f"quaternion level: model yawDir differs between q and −q: {m}"
+        y = math.atan2(s_, c)
+        for name in ("yaw", "yawn"):
+            if not _ang_close(d[name], y, 1e-9):
+                return f"quaternion level: pyquaternion {name} {d[name]!r} != atan2(yawDir) {y!r} for q={d['q']}"
+        if not case.get("rp"):
+            for name, (kc, ks) in (("rad", ("rc", "rs")), ("radn", ("rcn", "rsn"))):
+                rc, rs = float(core.unq(m[kc])), float(core.unq(m[ks]))
+                if abs(math.cos(d[name]) - rc) > 1e-9 or abs(math.sin(d[name]) - rs) > 1e-9:
+                    return f"quaternion level: (cos, sin) of Quaternion.radians {d[name]!r} != radiansDir {(rc, rs)} ({name}, q={d['q']})"
     return None
 
 
